@@ -443,14 +443,49 @@ func (r *Run) codeOnPath(path *Path, i int, ml *MsgLit) *types.Const {
 }
 
 func (r *Run) constThroughLocals(fn *Func, path *Path, x ast.Expr) *types.Const {
+	return r.constDeep(fn, path, x, 0)
+}
+
+// constDeep: the constant an expression denotes on this path — directly, through a local's last definition,
+// through a parameter bound at the call of a looked-into helper, or through what a looked-into helper
+// returned (also one of several results, also when that helper got it from another helper).
+func (r *Run) constDeep(fn *Func, path *Path, x ast.Expr, depth int) *types.Const {
+	if x == nil || depth > 5 {
+		return nil
+	}
 	if c := constOf(fn.Info(), x); c != nil {
 		return c
 	}
-	if id, ok := ast.Unparen(x).(*ast.Ident); ok {
-		if obj := fn.Info().Uses[id]; obj != nil {
-			if rhs, _, ok := lastDefOnPath(fn, path, len(path.Events), obj); ok && rhs != nil {
-				return constOf(fn.Info(), rhs)
+	switch v := ast.Unparen(x).(type) {
+	case *ast.Ident:
+		if bfn, bx := resolveBound(fn, v); bfn != fn || bx != ast.Expr(v) {
+			return r.constDeep(bfn, path, bx, depth+1)
+		}
+		obj := fn.Info().Uses[v]
+		if obj == nil {
+			return nil
+		}
+		// the most recent definition before the use, searched from the use if it is an event of this instance
+		at := len(path.Events)
+		for i, ev := range path.Events {
+			if ev.Fn == fn && ev.Node != nil && ev.Node.Pos() <= v.Pos() && v.End() <= ev.Node.End() {
+				at = i
+				break
 			}
+		}
+		rhs, idx, ok := lastDefOnPath(fn, path, at, obj)
+		if !ok || rhs == nil {
+			return nil
+		}
+		if res, rfn, ok := r.P.inlinedResults(fn, rhs); ok && idx < len(res) {
+			return r.constDeep(rfn, path, res[idx], depth+1)
+		}
+		if idx == 0 {
+			return r.constDeep(fn, path, rhs, depth+1)
+		}
+	case *ast.CallExpr:
+		if res, rfn, ok := r.P.inlinedResults(fn, v); ok && len(res) == 1 {
+			return r.constDeep(rfn, path, res[0], depth+1)
 		}
 	}
 	return nil
